@@ -917,13 +917,13 @@ def run(ctx):
     if q:
         hist_actions = ["PickRx", "GenMake", "GenSplit", "GenSubset", "GenAdd", "GenQuery", "GenQueryCat"]
         _prefetch(ctx, [("ctor_q", [], 50), ("graph_q", [], 2000), ("chain_q", [], 600), ("dot_q", [], 1000),
-                        ("subyld_q", [], 2000), ("pair_q", ["GenQuery2"], 50), ("conv_q", [], 1000),
+                        ("subyld_q", [], 2000), ("pair_q", ["GenQuery2"], 50), ("parts", [], 50), ("conv_q", [], 1000),
                         ("cat3_q", ["GenQueryCat"], 50), ("bounds_q", [], 1000), ("twin", [], 3000),
                         ("hist_q", hist_actions, 50)])
     else:
         hist_actions = ["PickRx", "GenMake", "GenSplit", "GenSubset", "GenAdd", "GenQuery", "GenQueryCat"]
         _prefetch(ctx, [("ctor_t", [], 50), ("graph_t", [], 2000), ("chain_t", [], 600), ("dot_t", [], 1000),
-                        ("subset_t", [], 50), ("yields_t", [], 50), ("pair_t", ["GenQuery2"], 50), ("conv_t", [], 1000),
+                        ("subset_t", [], 50), ("yields_t", [], 50), ("pair_t", ["GenQuery2"], 50), ("parts", [], 50), ("conv_t", [], 1000),
                         ("cat3_t", ["GenQueryCat"], 50), ("bounds_t", [], 1000), ("twin", [], 3000),
                         ("hist_t", hist_actions, 50), ("hist2_t", [], 50)], parallel=2, window=3, workers=8)
     # (vacuity guard by -coverage only where an action is specific to the slice; it slows TLC down)
@@ -942,6 +942,8 @@ def run(ctx):
         _slice(ctx, "subset_t", None, [])
         _slice(ctx, "yields_t", None, [])
     _slice(ctx, "pair_" + sfx, 1500 if q else None, ["GenQuery2"])
+    # add / == / concatenate on systems whose reactions differ in exactly one of the four parts (inactive ones too)
+    _slice(ctx, "parts", 1500 if q else None, [])
     _slice(ctx, "conv_" + sfx, 1000 if q else None, [], min_cases=1000)
     # concatenate over three systems (every ordering), directly and after split/subset/add steps
     _slice(ctx, "cat3_" + sfx, 1000 if q else 30000, ["GenQueryCat"])
